@@ -118,7 +118,7 @@ def run(s):
     # "the calculation completes": the range check in front of the (T,V) -> (T,P) conversion refuses a pressure grid exactly when it overshoots the computed range, and the
     # grid is the requested one -- C06's obligations on the QHA layer (qha_adapter.py, outside this property's anchored files), registered here as well
     from props import C06
-    C06.run(core.SubSession(s, lambda n: n.replace("C06.", "C12.pressure_range."), lambda n: n in ("C06.overshooting_grid_rejected", "C06.pressure_grid_is_the_requested_one")))
+    core.SubSession(s, lambda n: n.replace("C06.", "C12.pressure_range."), lambda n: n in ("C06.overshooting_grid_rejected", "C06.pressure_grid_is_the_requested_one")).run(C06)
     s.min_obligations = 12
 
 
